@@ -233,15 +233,641 @@ class IoTr:
         self.bad(s, 'statement')
 
 
+def _par(t):
+    return f'({t})' if ' ' in t and not (t.startswith('(') and t.endswith(')')) else t
+
+
+def lean_t(k):
+    if isinstance(k, tuple):
+        if k[0] == 'List':
+            return f'List {_par(lean_t(k[1]))}'
+        if k[0] == 'Pair':
+            return f'{_par(lean_t(k[1]))} × {_par(lean_t(k[2]))}'
+    return KIND_TYPE[k]
+
+
+def _loaded(nodes):
+    return {n.id for x in nodes for n in ast.walk(x) if isinstance(n, ast.Name) and isinstance(n.ctx, ast.Load)}
+
+
+def _stored(nodes):
+    return {n.id for x in nodes for n in ast.walk(x) if isinstance(n, ast.Name) and isinstance(n.ctx, (ast.Store, ast.Del))}
+
+
+class IoTr2(IoTr):
+    """the writer side: typed locals (lists of shapes, the type map, the pyshp writer as `WriterS`, the files written so
+    far as `zip_out`), `for` loops as `List.foldlM` over a named body `<fn>.loop<n>` (state = the variables the body
+    changes, in order of definition; closure = the other variables it reads), comprehensions as map / filter / flatten,
+    plumbing statements (temp dir, zip members, the .prj text, the type-conflict warning) skipped when they bind nothing
+    that is read later and call only what `SKIP_CALLS` lists"""
+
+    SHAPE_CLASSES = ('GeoPoint', 'MultiGeoPoint', 'LineLikeMixin', 'PolygonLikeMixin')
+    SKIP_CALLS = ('Counter', 'LOGGER.warning', 'LOGGER.info', 'zip_file.write', 'open', 'os.path.join')
+    FTYPES = {('L', None): 'FType.L', ('N', None): '(FType.N 0)', ('C', None): 'FType.C'}
+
+    def __init__(self, qual, fn, env, nt, lean, localfns, shared=None):
+        super().__init__(qual, fn, env, nt)
+        self.lean, self.localfns = lean, localfns
+        self.shared = shared if shared is not None else {'loops': 0, 'aux': []}
+        self.cont = None
+        self.ret_bare = 'pure zip_out'
+
+    def gensym(self, base='x'):
+        self.shared['sym'] = self.shared.get('sym', 0) + 1
+        return f'{base}_{self.shared["sym"]}'
+
+    # ---- iterables: (lean list text, element kind) -----------------------------------------------------------------
+    def iterable(self, e, keys=False):
+        if isinstance(e, ast.Tuple) and e.elts and all(isinstance(x, ast.Tuple) and len(x.elts) == 2 for x in e.elts):
+            items = [[self.expr(y) for y in x.elts] for x in e.elts]
+            kinds = {(a[2], b[2]) for a, b in items}
+            if len(kinds) != 1 or not all(a[1] and b[1] for a, b in items):
+                self.bad(e, 'a tuple of pairs of differing types')
+            (ka, kb), = kinds
+            return '[' + ', '.join(f'({a[0]}, {b[0]})' for a, b in items) + ']', ('Pair', ka, kb)
+        if isinstance(e, ast.Call) and ast.unparse(e.func) == 'zip' and len(e.args) == 2 and not e.keywords \
+                and all(isinstance(a, ast.Call) and isinstance(a.func, ast.Attribute) and isinstance(a.func.value, ast.Name) and not a.args
+                        for a in e.args) and e.args[0].func.value.id == e.args[1].func.value.id \
+                and (e.args[0].func.attr, e.args[1].func.attr) == ('shapes', 'records') \
+                and self.env.get(e.args[0].func.value.id, (None, None))[1] == 'Reader':
+            return f'({self.env[e.args[0].func.value.id][0]}).rows', ('Pair', 'ShpShape', 'Dict')
+        if isinstance(e, ast.Call) and isinstance(e.func, ast.Attribute) and e.func.attr == 'to_dict' and isinstance(e.func.value, ast.Name) \
+                and self.env.get(e.func.value.id, (None, None))[1] == 'Frame' and len(e.args) == 1 and not e.keywords \
+                and isinstance(e.args[0], ast.Constant) and e.args[0].value == 'records':
+            return f'({self.env[e.func.value.id][0]}).rows', 'GRow'
+        if isinstance(e, ast.Call) and ast.unparse(e.func) == 'enumerate' and len(e.args) == 1 and not e.keywords:
+            t, pure, k = self.expr(e.args[0])
+            if pure and isinstance(k, tuple) and k[0] == 'List':
+                return f'(enumFrom 0 {t})', ('Pair', 'Nat', k[1])
+        if isinstance(e, ast.Call) and isinstance(e.func, ast.Attribute) and e.func.attr in ('items', 'keys') and not e.args:
+            t, pure, k = self.expr(e.func.value)
+            vk = {'Dict': 'PVal', 'TagDict': 'PTag'}.get(k)
+            if pure and vk:
+                return (t, ('Pair', 'Str', vk)) if e.func.attr == 'items' else (f'({t}.map (·.1))', 'Str')
+        t, pure, k = self.expr(e)
+        if pure and isinstance(k, tuple) and k[0] == 'List':
+            return t, k[1]
+        if pure and k in ('Dict', 'TagDict'):
+            return f'({t}.map (·.1))', 'Str'            # iterating a dict gives its keys
+        if pure and k == 'Coll':
+            return t, 'Shape'
+        self.bad(e, 'iteration over')
+
+    def bind_target(self, target, x, kind):
+        """bind the loop / comprehension target(s) to the element `x`; returns the `let` prefix"""
+        if isinstance(target, ast.Name):
+            self.env[target.id] = (lname(target.id), kind)
+            return f'let {lname(target.id)} := {x}; '
+        if isinstance(target, ast.Tuple) and len(target.elts) == 2 and all(isinstance(t, ast.Name) for t in target.elts) \
+                and isinstance(kind, tuple) and kind[0] == 'Pair':
+            a, b = target.elts
+            self.env[a.id] = (lname(a.id), kind[1])
+            self.env[b.id] = (lname(b.id), kind[2])
+            return f'let {lname(a.id)} := {x}.1; let {lname(b.id)} := {x}.2; '
+        self.bad(target, 'loop target')
+
+    def comp(self, elt, gens):
+        saved = dict(self.env)
+        g = gens[0]
+        xs, ek = self.iterable(g.iter)
+        x = self.gensym('e')
+        binds = self.bind_target(g.target, x, ek)
+        src = xs
+        if g.ifs:
+            cs = [self.test(c) for c in g.ifs]
+            if not all(p for _t, p in cs):
+                self.bad(g.ifs[0], 'a comprehension filter that may raise')
+            src = f'({xs}.filter fun {x} => {binds}' + ' && '.join(t for t, _p in cs) + ')'
+        if len(gens) == 1:
+            t, pure, k = self.expr(elt)
+            text = f'({src}.map fun {x} => {binds}{t})' if pure else f'(mapExcept (fun {x} => {binds}{t}) {src})'
+        else:
+            inner, k, pure = self.comp(elt, gens[1:])
+            if not pure:
+                self.bad(elt, 'a nested comprehension whose element may raise')
+            k = k[1]
+            text = f'(({src}.map fun {x} => {binds}{inner}).flatten)'
+        self.env = saved
+        return text, ('List', k), pure
+
+    # ---- expressions -----------------------------------------------------------------------------------------------------
+    KIND_OF_CLASS = {'GeoPoint': 'Kind.point', 'GeoLineString': 'Kind.line', 'GeoPolygon': 'Kind.poly', 'MultiGeoPoint': 'Kind.mpoint',
+                     'MultiGeoLineString': 'Kind.mline', 'MultiGeoPolygon': 'Kind.mpoly'}
+
+    def kml_expr(self, e, u):
+        """the KML exporters: fastkml objects as the model's `KTime` / `Placemark` / `KNode`"""
+        narrow = getattr(self, 'narrow', {})
+        if u in narrow:
+            return narrow[u][0], True, narrow[u][1]
+        if isinstance(e, ast.Attribute) and isinstance(e.value, ast.Name) and e.value.id in self.env:
+            t, k = self.env[e.value.id]
+            if k == 'TI' and e.attr in ('start', 'end'):
+                return f'({t}).{1 if e.attr == "start" else 2}', True, 'Int'
+            if k == 'Shape' and e.attr == '_properties':
+                return f'({t}).props', True, 'Dict'
+            if k == 'Shape' and e.attr == 'dt':
+                return f'({t}).dt', True, 'OptTI'
+        if isinstance(e, ast.Attribute) and e.attr == 'dt' and isinstance(e.value, ast.Attribute) and isinstance(e.value.value, ast.Name) \
+                and self.env.get(e.value.value.id, (None, None))[1] == 'KTime' and e.value.attr in ('timestamp', 'begin', 'end'):
+            acc = {'timestamp': 'ktTimestampDt', 'begin': 'ktBeginDt', 'end': 'ktEndDt'}[e.value.attr]
+            return f'{acc} {self.env[e.value.value.id][0]}', False, 'Int'
+        if isinstance(e, ast.Call) and isinstance(e.func, ast.Name) and e.func.id == 'TimeInterval' and len(e.args) == 2 and not e.keywords:
+            def mkti(a):
+                if [x[1] for x in a] != ['Int', 'Int']:
+                    return None
+                return f'tiOfInts {a[0][0]} {a[1][0]}'
+            sub = IoTr2(self.qual, self.fn, self.env, self.nt, self.lean, self.localfns, self.shared)
+            sub.narrow = narrow
+            kinds = [sub.expr(a)[2] for a in e.args]
+            if kinds == ['Int', 'Int']:
+                t, _p = self.bind_args(e.args, mkti)
+                return t, False, 'TI'
+        if isinstance(e, ast.Call) and isinstance(e.func, ast.Name):
+            f, kws = e.func.id, {k.arg: k.value for k in e.keywords}
+            if f == 'KmlDateTime' and len(e.args) + len(kws) == 1 and set(kws) <= {'dt'}:
+                t, p, k = self.expr(e.args[0] if e.args else kws['dt'])
+                if p and k == 'Int':
+                    return t, True, 'Int'
+            if f == 'TimeStamp' and not e.args and set(kws) == {'timestamp'}:
+                t, p, k = self.expr(kws['timestamp'])
+                if p and k == 'Int':
+                    return f'(KTime.stamp {t})', True, 'KTime'
+            if f == 'TimeSpan' and not e.args and list(kws) == ['begin', 'end']:
+                (a, ap, ak), (b, bp, bk) = self.expr(kws['begin']), self.expr(kws['end'])
+                if ap and bp and ak == bk == 'Int':
+                    return f'(KTime.span {a} {b})', True, 'KTime'
+            if f == 'Data' and not e.args and list(kws) == ['name', 'value']:
+                (a, ap, ak), (b, bp, bk) = self.expr(kws['name']), self.expr(kws['value'])
+                if ap and bp and ak == 'Str' and bk == 'PVal':
+                    return f'({a}, {b})', True, ('Pair', 'Str', 'PVal')
+            if f == 'ExtendedData' and not e.args and list(kws) == ['elements']:
+                t, p, k = self.expr(kws['elements'])
+                if p and k == ('List', ('Pair', 'Str', 'PVal')):
+                    return t, True, 'Dict'
+            if f == 'Placemark' and not e.args and [k.arg for k in e.keywords] == ['geometry', 'extended_data', 'times', None] \
+                    and isinstance(e.keywords[3].value, ast.Name) and self.env.get(e.keywords[3].value.id, (None, None))[1] == 'NoKw':
+                def mkp(a):
+                    if [x[1] for x in a] != ['GI', 'Dict', 'KTime']:
+                        self.bad(e, 'Placemark(geometry=…, extended_data=…, times=…) at other types')
+                    return f'pure {{ geom := Option.some {a[0][0]}, data := Option.some {a[1][0]}, times := {a[2][0]} }}'
+                self.shape_as_geometry = True
+                try:
+                    t, _p = self.bind_args([k.value for k in e.keywords[:3]], mkp)
+                finally:
+                    self.shape_as_geometry = False
+                return t, False, 'PM'
+            if f == 'Folder' and not e.args and list(kws) == ['name', 'features']:
+                def mkf(a):
+                    if [x[1] for x in a] != ['Str', ('List', 'PM')]:
+                        self.bad(e, 'Folder(name=…, features=…) at other types')
+                    return f'pure (KNode.folder (Option.some {a[0][0]}) ({a[1][0]}.map KNode.pm))'
+                t, _p = self.bind_args([kws['name'], kws['features']], mkf)
+                return t, False, 'KNode'
+        if isinstance(e, ast.Name) and getattr(self, 'shape_as_geometry', False) and self.env.get(e.id, (None, None))[1] == 'Shape':
+            return f'giOrErr {self.env[e.id][0]}', False, 'GI'        # fastkml reads the shape's geo interface (not translated)
+        if isinstance(e, ast.Call) and isinstance(e.func, ast.Attribute) and not e.args and not e.keywords \
+                and e.func.attr in getattr(self, 'methods', {}):
+            t, p, k = self.expr(e.func.value)
+            lean, want, ret = self.methods[e.func.attr]
+            if p and k == want:
+                return f'{lean} {t}', False, ret
+        if isinstance(e, ast.IfExp) and isinstance(e.test, ast.Compare) and len(e.test.ops) == 1 and isinstance(e.test.ops[0], ast.IsNot) \
+                and isinstance(e.test.comparators[0], ast.Constant) and e.test.comparators[0].value is None \
+                and isinstance(e.orelse, ast.Constant) and e.orelse.value is None:
+            t, p, k = self.expr(e.test.left)
+            if p and k == 'OptTI':
+                x = self.gensym('ti')
+                self.narrow = dict(narrow)
+                self.narrow[ast.unparse(e.test.left)] = (x, 'TI')
+                try:
+                    b, bp, bk = self.expr(e.body)
+                finally:
+                    self.narrow = narrow
+                if bk == 'KTime':
+                    return (f'(match {t} with | Option.some {x} => {b if not bp else "pure " + b} | Option.none => pure KTime.none)'), False, 'KTime'
+        return None
+
+    def reader_expr(self, e):
+        """the reader side (`from_shapefile`): archive members, the pyshp reader's rows, the class map"""
+        u = ast.unparse(e)
+        r = self.kml_expr(e, u)
+        if r is not None:
+            return r
+        if isinstance(e, ast.Dict) and e.keys and all(isinstance(k, ast.Constant) and isinstance(k.value, str) for k in e.keys) \
+                and all(isinstance(v, ast.Name) and v.id in self.KIND_OF_CLASS for v in e.values):
+            return '[' + ', '.join(f'({py2lean._lean_str(k.value)}, {self.KIND_OF_CLASS[v.id]})' for k, v in zip(e.keys, e.values)) + ']', True, 'ClassMap'
+        if isinstance(e, ast.Call) and isinstance(e.func, ast.Attribute) and isinstance(e.func.value, ast.Name) and e.func.value.id in self.env \
+                and not e.keywords:
+            t, k = self.env[e.func.value.id]
+            m, n = e.func.attr, len(e.args)
+            if k == 'Archive' and m == 'namelist' and n == 0:
+                return t, True, ('List', 'Member')
+            if k == 'Reader' and m == 'shapes' and n == 0:
+                return f'(({t}).rows.map (·.1))', True, ('List', 'ShpShape')
+            if k == 'Reader' and m == 'records' and n == 0:
+                return f'(({t}).rows.map (·.2))', True, ('List', 'Dict')
+            if k == 'Dict' and m == 'as_dict' and n == 0:
+                return t, True, 'Dict'
+            if k == 'Kind' and m == 'from_pyshp':
+                pass
+        if isinstance(e, ast.Call) and isinstance(e.func, ast.Attribute) and e.func.attr == 'from_pyshp' and isinstance(e.func.value, ast.Name) \
+                and self.env.get(e.func.value.id, (None, None))[1] == 'Kind' and len(e.args) == 1 and [k.arg for k in e.keywords] == ['dt', 'properties']:
+            def mk(a):
+                if [x[1] for x in a] != ['ShpShape', 'V', 'Dict']:
+                    self.bad(e, 'from_pyshp(shape, dt=…, properties=…) at other types')
+                return f'fromPyshpV {self.env[e.func.value.id][0]} {a[0][0]} {a[1][0]} {a[2][0]}'
+            t, _p = self.bind_args([e.args[0], e.keywords[0].value, e.keywords[1].value], mk)
+            return t, False, 'Shape'
+        if u.endswith(".__geo_interface__.get('type')") and isinstance(e, ast.Call) and isinstance(e.func.value, ast.Attribute) \
+                and isinstance(e.func.value.value, ast.Name) and self.env.get(e.func.value.value.id, (None, None))[1] == 'ShpShape':
+            return f'({self.env[e.func.value.value.id][0]}).gtype', True, 'Str'
+        if isinstance(e, ast.Call) and u.startswith('shapefile.Reader(') and len(e.args) == 1 and isinstance(e.args[0], ast.BinOp) \
+                and isinstance(e.args[0].op, ast.Div) and isinstance(e.args[0].left, ast.Call) and ast.unparse(e.args[0].left.func) == 'Path' \
+                and len(e.args[0].left.args) == 1:
+            a, _ap, ak = self.expr(e.args[0].left.args[0])
+            b, bp, bk = self.expr(e.args[0].right)
+            if ak == 'Archive' and bk == 'Member' and bp:
+                return f'({b}).reader', True, 'Reader'
+        if isinstance(e, ast.Subscript) and isinstance(e.value, ast.Name) and self.env.get(e.value.id, (None, None))[1] == 'ClassMap':
+            t, _p = self.bind_args([e.slice], lambda a: f'classGet {self.env[e.value.id][0]} {a[0][0]}')
+            return t, False, 'Kind'
+        if isinstance(e, ast.DictComp) and len(e.generators) == 1 and isinstance(e.generators[0].target, ast.Tuple) \
+                and ast.unparse(e.generators[0].target) == f'({ast.unparse(e.key)}, {ast.unparse(e.value)})':
+            g = e.generators[0]
+            if isinstance(g.iter, ast.Call) and isinstance(g.iter.func, ast.Attribute) and g.iter.func.attr == 'items':
+                self.row_as_dict = True
+                try:
+                    d, dp, dk = self.expr(g.iter.func.value)
+                finally:
+                    self.row_as_dict = False
+                if dp and dk == 'Dict':
+                    saved = dict(self.env)
+                    x = self.gensym('kv')
+                    binds = self.bind_target(g.target, x, ('Pair', 'Str', 'PVal'))
+                    cs = [self.test(c) for c in g.ifs]
+                    self.env = saved
+                    if all(p for _t, p in cs):
+                        return f'({d}.filter fun {x} => {binds}' + (' && '.join(t for t, _p in cs) or 'true') + ')', True, 'Dict'
+        if isinstance(e, ast.BoolOp) and isinstance(e.op, ast.Or) and len(e.values) == 2 and isinstance(e.values[0], ast.Name) \
+                and self.env.get(e.values[0].id, (None, None))[1] == 'Incl':
+            b, bp, bk = self.expr(e.values[1])
+            if bp and bk == ('List', 'Str'):
+                return f'(inclOr {self.env[e.values[0].id][0]} {b})', True, ('List', 'Str')
+        if isinstance(e, ast.Call) and isinstance(e.func, ast.Name) and e.func.id == 'set' and len(e.args) == 1 and not e.keywords \
+                and isinstance(e.args[0], ast.GeneratorExp):
+            t, k, pure = self.comp(e.args[0].elt, e.args[0].generators)
+            if pure and k == ('List', 'Str'):
+                return f'(strSet {t})', True, k
+        if isinstance(e, ast.DictComp) and len(e.generators) == 1 and isinstance(e.generators[0].target, ast.Name) \
+                and isinstance(e.key, ast.Name) and e.key.id == e.generators[0].target.id and not e.generators[0].ifs:
+            g = e.generators[0]
+            xs, ek = self.iterable(g.iter)
+            if ek == 'Str':
+                saved = dict(self.env)
+                x = self.gensym('key')
+                binds = self.bind_target(g.target, x, 'Str')
+                v, vp, vk = self.expr(e.value)
+                self.env = saved
+                if vp and vk == 'V':
+                    return f'({xs}.map fun {x} => {binds}({lname(g.target.id)}, V.toP {v}))', True, 'Dict'
+        if isinstance(e, ast.Call) and isinstance(e.func, ast.Attribute) and e.func.attr == 'to_wkt' and not e.args and not e.keywords:
+            t, tp, tk = self.expr(e.func.value)
+            if tp and tk == 'Shape':
+                return f'giOrErr {t}', False, 'GI'          # the per-shape adapter (not translated)
+        if isinstance(e, ast.Call) and u.startswith('gpd.GeoDataFrame(') and not e.args and [k.arg for k in e.keywords] == ['data', 'geometry']:
+            d, g = e.keywords[0].value, e.keywords[1].value
+            if isinstance(d, ast.Call) and ast.unparse(d.func) == 'pd.DataFrame' and len(d.args) == 1 and not d.keywords \
+                    and isinstance(g, ast.Call) and ast.unparse(g.func) == 'gpd.GeoSeries.from_wkt' and len(g.args) == 1 and not g.keywords:
+                def mk(a):
+                    if [x[1] for x in a] != [('List', 'Dict'), ('List', 'GI')]:
+                        self.bad(e, 'GeoDataFrame(data=DataFrame(rows), geometry=GeoSeries.from_wkt(texts)) at other types')
+                    return f'pure (GpdFrameW.mk {a[0][0]} {a[1][0]})'
+                t, _p = self.bind_args([d.args[0], g.args[0]], mk)
+                return t, False, 'FrameW'
+        if isinstance(e, ast.Call) and isinstance(e.func, ast.Name) and e.func.id == 'cast' and len(e.args) == 2 and not e.keywords:
+            return self.expr(e.args[1])              # typing.cast is the identity
+        if isinstance(e, ast.Attribute) and isinstance(e.value, ast.Name) and self.env.get(e.value.id, (None, None))[1] == 'Frame' \
+                and e.attr == 'columns':
+            return f'({self.env[e.value.id][0]}).columns', True, ('List', 'Str')
+        if isinstance(e, ast.Attribute) and e.attr in ('geom_type', 'wkt') and isinstance(e.value, ast.Subscript) \
+                and isinstance(e.value.value, ast.Name) and self.env.get(e.value.value.id, (None, None))[1] == 'GRow' \
+                and isinstance(e.value.slice, ast.Constant) and e.value.slice.value == 'geometry':
+            r = self.env[e.value.value.id][0]
+            return (f'({r}).geomType', True, 'Str') if e.attr == 'geom_type' else (f'({r}).wkt', True, 'GI')
+        if isinstance(e, ast.Name) and self.env.get(e.id, (None, None))[1] == 'GRow' and getattr(self, 'row_as_dict', False):
+            return f'({self.env[e.id][0]}).cells', True, 'Dict'
+        if isinstance(e, ast.Call) and isinstance(e.func, ast.Attribute) and e.func.attr == 'from_wkt' and len(e.args) == 1 \
+                and [k.arg for k in e.keywords] == ['dt', 'properties']:
+            def mkw(a):
+                if [x[1] for x in a] != ['Kind', 'GI', 'V', 'Dict']:
+                    self.bad(e, 'from_wkt(text, dt=…, properties=…) at other types')
+                return f'fromWktV {a[0][0]} {a[1][0]} {a[2][0]} {a[3][0]}'
+            t, _p = self.bind_args([e.func.value, e.args[0], e.keywords[0].value, e.keywords[1].value], mkw)
+            return t, False, 'Shape'
+        if isinstance(e, ast.List) and not e.elts and getattr(self, 'empty_list_kind', None):
+            return f'([] : {lean_t(self.empty_list_kind)})', True, self.empty_list_kind
+        return None
+
+    def expr(self, e):
+        r = self.reader_expr(e)
+        if r is not None:
+            return r
+        if isinstance(e, ast.Attribute) and isinstance(e.value, ast.Name) and e.value.id in self.env:
+            t, k = self.env[e.value.id]
+            if k == 'Coll' and e.attr == 'geoshapes':
+                return t, True, ('List', 'Shape')
+            if k == 'Shape' and e.attr == 'properties':
+                return f'(Shape.properties {t})', True, 'Dict'        # pinned `BaseShapeProtocol.properties`
+            self.bad(e, 'attribute')
+        if isinstance(e, ast.Name) and e.id in self.env and self.env[e.id][1] == 'Nat':
+            return self.env[e.id][0], True, 'Nat'
+        if isinstance(e, (ast.ListComp, ast.GeneratorExp)):
+            t, k, pure = self.comp(e.elt, e.generators)
+            return t, pure, k
+        if isinstance(e, ast.Tuple) and len(e.elts) == 2:
+            (a, ap, ak), (b, bp, bk) = self.expr(e.elts[0]), self.expr(e.elts[1])
+            if ap and bp:
+                return f'({a}, {b})', True, ('Pair', ak, bk)
+        if isinstance(e, ast.Call) and isinstance(e.func, ast.Name) and not e.keywords:
+            f = e.func.id
+            if f == 'type' and len(e.args) == 1:
+                t, pure, k = self.expr(e.args[0])
+                if pure and k == 'PVal':
+                    return f'(PVal.tag {t})', True, 'PTag'
+            if f == 'set' and len(e.args) == 1 and isinstance(e.args[0], ast.GeneratorExp):
+                # a set of (key, type) pairs: its iteration order is modelled as generation order (Model/Io.lean)
+                t, pure, k = self.expr(e.args[0])
+                if pure and k == ('List', ('Pair', 'Str', 'PTag')):
+                    return t, True, k
+            if f == 'dict' and len(e.args) == 1:
+                t, pure, k = self.expr(e.args[0])
+                if pure and k == ('List', ('Pair', 'Str', 'PTag')):
+                    return f'(dictOf {t})', True, 'TagDict'
+            if f in self.localfns and len(e.args) == 1:
+                self.row_as_dict = True
+                try:
+                    t, _p = self.bind_args(e.args, lambda a: f'{self.localfns[f]} {a[0][0]}')
+                finally:
+                    self.row_as_dict = False
+                return t, False, 'V'
+        return super().expr(e)
+
+    def test(self, e):
+        if isinstance(e, ast.Call) and isinstance(e.func, ast.Name) and e.func.id in ('isinstance', 'issubclass') \
+                and len(e.args) == 2 and isinstance(e.args[1], ast.Name):
+            t, pure, k = self.expr(e.args[0])
+            c = e.args[1].id
+            if e.func.id == 'isinstance' and k == 'Shape' and pure and c in self.SHAPE_CLASSES:
+                return f'(shapeIsA Cls.{c} {t})', True
+            if e.func.id == 'issubclass' and k == 'PTag' and pure and c in self.CLASS_TAGS:
+                return f'(PTag.isSub {t} {self.CLASS_TAGS[c]})', True
+        if isinstance(e, ast.Call) and isinstance(e.func, ast.Name) and e.func.id == 'isinstance' and len(e.args) == 2 \
+                and isinstance(e.args[1], ast.Name) and e.args[1].id in ('TimeStamp', 'TimeSpan') and isinstance(e.args[0], ast.Name) \
+                and self.env.get(e.args[0].id, (None, None))[1] == 'KTime':
+            return f'({"ktIsStamp" if e.args[1].id == "TimeStamp" else "ktIsSpan"} {self.env[e.args[0].id][0]})', True
+        if isinstance(e, ast.BoolOp) and isinstance(e.op, ast.And) and isinstance(e.values[0], ast.Name) \
+                and self.env.get(e.values[0].id, (None, None))[1] == 'NoneT':
+            return 'false', True            # `None and …`: the instance is declared at None, the rest is not evaluated
+        if isinstance(e, ast.Call) and isinstance(e.func, ast.Attribute) and e.func.attr == 'endswith' and len(e.args) == 1 \
+                and isinstance(e.args[0], ast.Constant) and e.args[0].value == '.shp':
+            t, pure, k = self.expr(e.func.value)
+            if pure and k == 'Member':
+                return f'({t}).isShp', True
+        if isinstance(e, ast.Compare) and len(e.ops) == 1 and isinstance(e.ops[0], (ast.In, ast.NotIn)) \
+                and isinstance(e.comparators[0], ast.Tuple):
+            a, ap, ak = self.expr(e.left)
+            items = [self.expr(x) for x in e.comparators[0].elts]
+            if ap and ak == 'Str' and all(p and k == 'Str' for _t, p, k in items):
+                neg = '!' if isinstance(e.ops[0], ast.NotIn) else ''
+                return f'({neg}(' + ' || '.join(f'{a} == {t}' for t, _p, _k in items) + '))', True
+        if isinstance(e, ast.Compare) and len(e.ops) == 1 and isinstance(e.ops[0], (ast.In, ast.NotIn)) \
+                and isinstance(e.comparators[0], ast.Name) and self.env.get(e.comparators[0].id, (None, None))[1] == 'ClassMap':
+            a, ap, ak = self.expr(e.left)
+            if ap and ak == 'Str':
+                neg = '!' if isinstance(e.ops[0], ast.In) else ''
+                return f'({neg}(dictGet {self.env[e.comparators[0].id][0]} {a}).isNone)', True
+        if isinstance(e, ast.Compare) and len(e.ops) == 1 and isinstance(e.ops[0], (ast.In, ast.NotIn)):
+            (a, ap, ak), (b, bp, bk) = self.expr(e.left), self.expr(e.comparators[0])
+            if ap and bp and ak == 'Str' and bk == ('List', 'Str'):
+                neg = '!' if isinstance(e.ops[0], ast.NotIn) else ''
+                return f'({neg}({b}).contains {a})', True
+            if ap and bp and ak == 'Str' and bk == 'Incl':
+                neg = '!' if isinstance(e.ops[0], ast.NotIn) else ''
+                return f'({neg}inclContains {b} {a})', True
+        if isinstance(e, ast.Call):
+            r = self.reader_expr(e)
+            if r is not None and r[1] and isinstance(r[2], tuple) and r[2][0] == 'List':
+                return f'(!({r[0]}).isEmpty)', True
+        if isinstance(e, ast.Name) and e.id in self.env:
+            t, k = self.env[e.id]
+            if k == 'Incl':
+                return f'(inclTruthy {t})', True
+            if isinstance(k, tuple) and k[0] == 'List':
+                return f'(!({t}).isEmpty)', True
+        return super().test(e)
+
+    # ---- statements ------------------------------------------------------------------------------------------------------
+    def skippable(self, s, rest):
+        if any(isinstance(n, (ast.Return, ast.Raise, ast.Continue, ast.Break, ast.Yield, ast.For, ast.While)) for n in ast.walk(s)):
+            return False
+        st = _stored([s])
+        if st & set(self.env) or st & _loaded(rest):
+            return False
+        for n in ast.walk(s):
+            if isinstance(n, ast.Call):
+                f = ast.unparse(n.func)
+                if f in self.SKIP_CALLS:
+                    continue
+                if isinstance(n.func, ast.Attribute) and n.func.attr in ('most_common', 'split'):
+                    continue
+                if isinstance(n.func, ast.Attribute) and n.func.attr == 'write' and isinstance(n.func.value, ast.Name) \
+                        and n.func.value.id in st:
+                    continue
+                return False
+        return True
+
+    def mutated(self, body):
+        m = set(_stored(body))
+        for n in (x for b in body for x in ast.walk(b)):
+            if isinstance(n, ast.Call) and isinstance(n.func, ast.Attribute) and isinstance(n.func.value, ast.Name):
+                if n.func.attr in ('append', 'field', 'record'):
+                    m.add(n.func.value.id)
+                if n.func.attr == 'close':
+                    m.add('zip_out')
+                if n.func.attr == 'to_pyshp' and n.args and isinstance(n.args[0], ast.Name):
+                    m.add(n.args[0].id)
+        return m
+
+    def block(self, stmts, fall='pure zip_out'):
+        if not stmts:
+            return fall
+        s, rest = stmts[0], stmts[1:]
+        if isinstance(s, (ast.Import, ast.ImportFrom)):
+            return self.block(rest, fall)
+        if isinstance(s, ast.FunctionDef) and s.name in self.localfns:
+            return self.block(rest, fall)           # translated as a definition of its own
+        if isinstance(s, ast.Return) and s.value is None:
+            return self.ret_bare
+        if isinstance(s, ast.Continue) and self.cont is not None:
+            return self.cont
+        if isinstance(s, ast.Raise) and isinstance(s.exc, ast.Call) and isinstance(s.exc.func, ast.Name) \
+                and s.exc.func.id in ('ValueError', 'TypeError', 'KeyError'):
+            return f'.error "ERR:{s.exc.func.id[:-5]}"'
+        if isinstance(s, ast.AnnAssign) and isinstance(s.target, ast.Name) and isinstance(s.value, ast.List) and not s.value.elts:
+            ann = ast.unparse(s.annotation)
+            inner = ann[5:-1] if ann.startswith('List[') else None
+            if inner not in self.SHAPE_CLASSES + ('BaseShape',):
+                self.bad(s, 'annotation')
+            self.env[s.target.id] = (lname(s.target.id), ('List', 'Shape'))
+            return f'let {lname(s.target.id)} : List Shape := []\n' + self.block(rest, fall)
+        if isinstance(s, ast.With) and len(s.items) == 1 and ast.unparse(s.items[0].context_expr) == 'tempfile.TemporaryDirectory()' \
+                and isinstance(s.items[0].optional_vars, ast.Name):
+            self.env[s.items[0].optional_vars.id] = ('()', 'Path')
+            return self.block(list(s.body) + rest, fall)
+        if isinstance(s, ast.With) and len(s.items) == 1 and isinstance(s.items[0].context_expr, ast.Call) \
+                and ast.unparse(s.items[0].context_expr.func) == 'ZipFile' and isinstance(s.items[0].optional_vars, ast.Name) \
+                and len(s.items[0].context_expr.args) == 2 and ast.unparse(s.items[0].context_expr.args[1]) == "'r'":
+            a, ap, ak = self.expr(s.items[0].context_expr.args[0])
+            if ak == 'Archive':
+                self.env[s.items[0].optional_vars.id] = (a, 'Archive')
+                return self.block(list(s.body) + rest, fall)
+        if isinstance(s, ast.Return) and isinstance(s.value, ast.Call) and isinstance(s.value.func, ast.Name) and s.value.func.id == 'cls' \
+                and len(s.value.args) == 1 and not s.value.keywords:
+            t, pure, k = self.expr(s.value.args[0])
+            if pure and k == ('List', 'Shape'):
+                return f'pure {t}'
+        if isinstance(s, ast.Return) and s.value is not None and getattr(self, 'ret_kind', None):
+            t, pure, k = self.expr(s.value)
+            if k == self.ret_kind:
+                return f'pure {t}' if pure else t
+        if isinstance(s, ast.For) and not s.orelse:
+            return self.for_stmt(s, rest, fall)
+        if isinstance(s, ast.Expr) and isinstance(s.value, ast.Call) and isinstance(s.value.func, ast.Attribute) \
+                and isinstance(s.value.func.value, ast.Name) and s.value.func.value.id in self.env:
+            r = self.method_stmt(s.value, rest, fall)
+            if r is not None:
+                return r
+        if isinstance(s, ast.Assign) and len(s.targets) == 1 and isinstance(s.targets[0], ast.Name) \
+                and ast.unparse(s.value.func if isinstance(s.value, ast.Call) else s.value) == 'shapefile.Writer':
+            a = s.value.args
+            if len(a) == 1 and isinstance(a[0], ast.Call) and ast.unparse(a[0].func) == 'os.path.join' and len(a[0].args) == 2:
+                d, _p, dk = self.expr(a[0].args[0])
+                n, npure, nk = self.expr(a[0].args[1])
+                if dk == 'Path' and nk == 'Str' and npure:
+                    self.env[s.targets[0].id] = (lname(s.targets[0].id), 'Writer')
+                    return f'let {lname(s.targets[0].id)} := WriterS.new {n}\n' + self.block(rest, fall)
+            self.bad(s, 'only shapefile.Writer(os.path.join(<temp dir>, <layer name>)) is read')
+        if isinstance(s, (ast.If, ast.With, ast.Expr, ast.Assign, ast.AugAssign)) and self.skippable(s, rest) \
+                and not (isinstance(s, ast.Assign)):
+            return self.block(rest, fall)
+        return super().block(stmts, fall)
+
+    def method_stmt(self, c, rest, fall):
+        recv = c.func.value.id
+        rt, rk = self.env[recv]
+        m = c.func.attr
+        if m == 'append' and isinstance(rk, tuple) and rk[0] == 'List' and len(c.args) == 1 and not c.keywords:
+            t, pure, k = self.expr(c.args[0])
+            if pure and k == rk[1]:
+                return f'let {rt} := {rt} ++ [{t}]\n' + self.block(rest, fall)
+            if k == rk[1]:
+                x = self.gensym('v')
+                return f'({t}) >>= fun {x} =>\nlet {rt} := {rt} ++ [{x}]\n' + self.block(rest, fall)
+        if m == 'field' and rk == 'Writer' and len(c.args) == 2 and isinstance(c.args[1], ast.Constant):
+            k, kp, kk = self.expr(c.args[0])
+            kws = {x.arg: x.value for x in c.keywords}
+            code = c.args[1].value
+            ft = None
+            if not kws and (code, None) in self.FTYPES:
+                ft = self.FTYPES[(code, None)]
+            elif code == 'N' and set(kws) == {'decimal'} and isinstance(kws['decimal'], ast.Constant) and isinstance(kws['decimal'].value, int):
+                ft = f'(FType.N {kws["decimal"].value})'
+            if ft and kp and kk == 'Str':
+                return f'let {rt} := WriterS.field {rt} {k} {ft}\n' + self.block(rest, fall)
+        if m == 'record' and rk == 'Writer' and not c.keywords:
+            parts, wraps = [], []
+            for a in c.args:
+                if isinstance(a, ast.Starred):
+                    t, pure, k = self.expr(a.value)
+                    if k != ('List', 'V'):
+                        self.bad(a, 'a starred argument that is not a list of values')
+                    if not pure:
+                        x = self.gensym('r')
+                        wraps.append((x, t))
+                        t = x
+                    parts.append(f'({t}.map V.toP)')
+                else:
+                    t, pure, k = self.expr(a)
+                    if not pure or k not in ('Nat', 'V'):
+                        self.bad(a, 'record value')
+                    parts.append(f'[PVal.int {t}]' if k == 'Nat' else f'[V.toP {t}]')
+            tail = f'let {rt} := WriterS.record {rt} (' + ' ++ '.join(parts) + ')\n' + self.block(rest, fall)
+            for x, t in reversed(wraps):
+                tail = f'({t}) >>= fun {x} =>\n{tail}'
+            return tail
+        if m == 'to_pyshp' and rk == 'Shape' and len(c.args) == 1 and isinstance(c.args[0], ast.Name) \
+                and self.env.get(c.args[0].id, (None, None))[1] == 'Writer':
+            w = self.env[c.args[0].id][0]
+            x = self.gensym('call')
+            tail = py2lean._indent(f'let {w} := WriterS.shape {w} {x}\n' + self.block(rest, fall))
+            return f'match toPyshp ({rt}).geom with\n| Option.none => .error "ERR:Attr"\n| Option.some {x} =>\n{tail}'
+        if m == 'close' and rk == 'Writer' and not c.args:
+            return f'let zip_out := zip_out ++ [({rt}).file]\n' + self.block(rest, fall)
+        return None
+
+    def for_stmt(self, s, rest, fall):
+        self.shared['loops'] += 1
+        num = self.shared['loops']
+        name = f'{self.lean}.loop{num}'
+        xs, ek = self.iterable(s.iter)
+        muts = self.mutated(s.body)
+        tnames = _stored([s.target])
+        state = [v for v in self.env if v in muts and v not in tnames]
+        if not state:
+            self.bad(s, 'a loop that changes nothing')
+        loaded = _loaded(s.body) | ({'zip_out'} if 'zip_out' in muts else set())
+        for f_ in list(loaded):
+            if f_ in self.localfns:         # what a nested helper reads from the enclosing function's parameters
+                loaded |= set(self.localfns[f_].split()[1:])
+        closure = [v for v in self.env if v in loaded and v not in state and v not in tnames and self.env[v][1] != 'Path']
+        sub = IoTr2(self.qual, self.fn, {v: self.env[v] for v in self.env if v in closure or v in state or self.env[v][1] == 'Path'},
+                    self.nt, self.lean, self.localfns, self.shared)
+        sub.ret_bare = None
+        tup = '(' + ', '.join(self.env[v][0] for v in state) + ')' if len(state) > 1 else self.env[state[0]][0]
+        sub.cont = f'pure {tup}'
+        binds = sub.bind_target(s.target, 'x', ek).replace('; ', '\n')
+        projs = []
+        for i, v in enumerate(state):
+            p = 'st' + '.2' * i + ('.1' if i < len(state) - 1 else '')
+            projs.append(f'let {self.env[v][0]} := {p}' if len(state) > 1 else f'let {self.env[v][0]} := st')
+        body = sub.block(list(s.body), sub.cont)
+        st_t = ' × '.join(_par(lean_t(self.env[v][1])) for v in state)
+        cb = ' '.join(f'({self.env[v][0]} : {lean_t(self.env[v][1])})' for v in closure)
+        aux = (f'/-- body of the {num}. loop of `{self.qual}`: `for {ast.unparse(s.target)} in {ast.unparse(s.iter)[:60]}` -/\n'
+               f'def {name} {cb} (st : {st_t}) (x : {lean_t(ek)}) : Except String ({st_t}) :=\n' +
+               py2lean._indent('\n'.join(projs) + '\n' + binds + body))
+        self.shared['aux'].append(aux)
+        call = f'List.foldlM ({name}' + ''.join(' ' + self.env[v][0] for v in closure) + f') {tup} {xs}'
+        return f'({call}) >>= fun st =>\n' + '\n'.join(projs) + '\n' + self.block(rest, fall)
+
+
 class Fn:
     """one translated definition: `qual` (dotted path, nested defs included), Lean name, parameters [(python name, kind)],
     `closure`: names read from the enclosing function's parameters, `nt`: truthiness of the channel's null"""
 
-    def __init__(self, qual, lean, params, closure=(), nt='false', doc=''):
+    def __init__(self, qual, lean, params, closure=(), nt='false', doc='', writer=False, localfns=None):
         self.qual, self.lean, self.params, self.closure, self.nt, self.doc = qual, lean, list(params), list(closure), nt, doc
+        self.writer, self.localfns = writer, localfns or {}
+        self.reader = False
+        self.file = 'collections.py'
 
 
-KIND_TYPE = {'V': 'V', 'Str': 'String', 'Dict': 'Dict PVal'}
+KIND_TYPE = {'V': 'V', 'Str': 'String', 'Dict': 'Dict PVal', 'Shape': 'Shape', 'Nat': 'Nat', 'PVal': 'PVal', 'PTag': 'PTag',
+             'TagDict': 'Dict PTag', 'Incl': 'Option (List String)', 'Writer': 'WriterS', 'Out': 'List ShpFileW', 'Path': 'Unit',
+             'Coll': 'List Shape', 'Archive': 'List Member', 'Member': 'Member', 'Reader': 'ShpFileR', 'ShpShape': 'ShpShapeR',
+             'ClassMap': 'List (String × Kind)', 'Kind': 'Kind', 'NoneT': 'Unit', 'GI': 'GI', 'FrameW': 'GpdFrameW', 'Frame': 'GpdFrameR',
+             'GRow': 'GpdRowR', 'TI': 'Int × Int', 'Int': 'Int', 'KTime': 'KTime', 'PM': 'Placemark', 'KNode': 'KNode',
+             'OptTI': 'Dt', 'NoKw': 'Unit'}
 
 
 def find_def(tree, qual):
@@ -271,22 +897,24 @@ class IoUnit:
             got = py2lean.pin_of(py2lean.Source(os.path.join(self.base, rel)).get(q))
             if got != digest:
                 raise Unsupported(f'pinned helper `{qual}` changed (AST digest {got}, pinned {digest})')
-        tree = ast.parse(open(self.path).read())
+        trees = {}
         out = ['import GeoVerif.Model.IoPy', '/-!',
                '# GENERATED by harness/srcunits_io.py (reading `io_adapters`) from `geostructures/collections.py` on every run. Do not edit.',
                '', 'One definition per translated function of the current source text; values are `GV.Io.Py.V`.', '-/', '',
                'set_option linter.unusedVariables false', '', 'namespace GV.SrcIo', 'open GV.Io GV.Io.Py', '']
         for f in self.fns:
-            out += self.render_fn(tree, f) + ['']
+            if f.file not in trees:
+                trees[f.file] = ast.parse(open(os.path.join(self.base, f.file)).read())
+            out += self.render_fn(trees[f.file], f) + ['']
         out += ['end GV.SrcIo', '']
         return '\n'.join(out)
 
     def render_fn(self, tree, f):
         node, outers = find_def(tree, f.qual)
         a = node.args
-        if a.vararg or a.kwarg or a.kwonlyargs or a.posonlyargs:
+        if a.vararg or a.kwonlyargs or a.posonlyargs or (a.kwarg and a.kwarg.arg not in [n for n, k in f.params if k == 'NoKw']):
             raise Unsupported(f'`{f.qual}`: star / keyword-only parameters')
-        have = [x.arg for x in a.args]
+        have = [x.arg for x in a.args] + ([a.kwarg.arg] if a.kwarg else [])
         if have != [n for n, _k in f.params]:
             raise Unsupported(f'`{f.qual}`: parameters {have} do not match the declared {[n for n, _k in f.params]}')
         env = {}
@@ -303,15 +931,36 @@ class IoUnit:
         for n, k in f.params:
             env[n] = (lname(n), k)
         # every other free name must be known to the reading (builtins / classes); locals are bound by assignment
-        tr = IoTr(f.qual, node, env, f.nt)
-        body = tr.block(list(node.body))
-        binders = ' '.join(f'({lname(n)} : {KIND_TYPE[k]})' for n, k in list(f.closure) + list(f.params))
+        pre, ret = [], 'Except String V'
+        if f.writer:
+            env['zip_out'] = ('zip_out', 'Out')
+            tr = IoTr2(f.qual, node, env, f.nt, f.lean, f.localfns)
+            body = 'let zip_out : List ShpFileW := []\n' + tr.block(list(node.body))
+            for a_ in tr.shared['aux']:
+                pre += a_.split('\n') + ['']
+            ret = 'Except String (List ShpFileW)'
+        elif f.reader:
+            tr = IoTr2(f.qual, node, env, f.nt, f.lean, f.localfns)
+            tr.empty_list_kind = ('List', 'Shape')
+            tr.ret_kind = getattr(f, 'ret_kind', None)
+            tr.methods = getattr(f, 'methods', {})
+            tr.ret_bare = None
+            body = tr.block(list(node.body), fall='.error "ERR:NoReturn"')
+            for a_ in tr.shared['aux']:
+                pre += a_.split('\n') + ['']
+            ret = 'Except String (List Shape)'
+            if getattr(f, 'ret_kind', None):
+                ret = f'Except String {_par(lean_t(f.ret_kind))}'
+        else:
+            tr = IoTr(f.qual, node, env, f.nt)
+            body = tr.block(list(node.body))
+        binders = ' '.join(f'({lname(n)} : {lean_t(k)})' for n, k in list(f.closure) + list(f.params) if k not in ('Path', 'NoKw'))
         shown = ast.parse(ast.unparse(node)).body[0]
         if shown.body and isinstance(shown.body[0], ast.Expr) and isinstance(shown.body[0].value, ast.Constant) and len(shown.body) > 1:
             shown.body = shown.body[1:]
         doc = [f'/-- `{f.qual}`' + (f' — {f.doc}' if f.doc else ''), '```']
         doc += [ln.replace('-/', '- /') for ln in ast.unparse(shown).split('\n')][:40] + ['```', '-/']
-        return doc + [f'def {f.lean} {binders} : Except String V :='] + ['  ' + ln for ln in body.split('\n')]
+        return pre + doc + [f'def {f.lean} {binders} : {ret} :='] + ['  ' + ln for ln in body.split('\n')]
 
 
 def unit():
@@ -325,13 +974,46 @@ def unit():
            doc='a dbf null is `None`'),
         Fn('CollectionBase.from_geopandas._get_dt', 'gpdGetDt', [('rec', 'Dict')], closure=FS, nt='true',
            doc='a null cell is `NaN` / `NaT` (truthy); a `None` cell is absent'),
+        Fn('CollectionBase.to_shapefile', 'toShapefile', [('self', 'Coll'), ('zip_file', 'Path'), ('include_properties', 'Incl')],
+           nt='false', writer=True, localfns={'_convert_dt': 'convertDt'},
+           doc='what reaches the pyshp writers, file after file (`zip_out`)'),
     ]
+    rd = Fn('CollectionBase.from_shapefile', 'fromShapefile',
+            [('cls', 'Path'), ('zip_fpath', 'Archive'), ('time_start_field', 'Str'), ('time_end_field', 'Str'), ('read_layers', 'NoneT')],
+            nt='false', localfns={'_get_dt': 'shpGetDt time_start_field time_end_field'},
+            doc='at `read_layers=None`; the archive is the list of its members')
+    rd.reader = True
+    fns.append(rd)
+    fg = Fn('CollectionBase.from_geopandas', 'fromGeopandas',
+            [('cls', 'Path'), ('df', 'Frame'), ('time_start_field', 'Str'), ('time_end_field', 'Str')],
+            nt='true', localfns={'_get_dt': 'gpdGetDt time_start_field time_end_field'},
+            doc='the frame as `GpdFrameR`: `columns` and the cells of a row are without the geometry column')
+    fg.reader = True
+    fns.append(fg)
+    k1 = Fn('TimeInterval._to_fastkml', 'tiToFastkml', [('self', 'TI')], doc='`KmlDateTime` is the instant')
+    k1.reader, k1.ret_kind, k1.file = True, 'KTime', 'time.py'
+    k2 = Fn('BaseShapeProtocol.to_fastkml_placemark', 'toFastkmlPlacemark', [('self', 'Shape'), ('kwargs', 'NoKw')],
+            doc='at no keyword arguments; `geometry=self` is read by fastkml through the geo interface (`giOrErr`)')
+    k2.reader, k2.ret_kind, k2.file = True, 'PM', '_base.py'
+    k2.methods = {'_to_fastkml': ('tiToFastkml', 'TI', 'KTime')}
+    k3 = Fn('CollectionBase.to_fastkml_folder', 'toFastkmlFolder', [('self', 'Coll'), ('folder_name', 'Str')])
+    k3.reader, k3.ret_kind = True, 'KNode'
+    k3.methods = {'to_fastkml_placemark': ('toFastkmlPlacemark', 'Shape', 'PM')}
+    k4 = Fn('TimeInterval._from_fastkml', 'tiFromFastkml', [('fastkml_time', 'KTime')], doc='`x.timestamp.dt` is the instant')
+    k4.reader, k4.ret_kind, k4.file = True, 'TI', 'time.py'
+    fns += [k1, k2, k3, k4]
+    tg = Fn('CollectionBase.to_geopandas', 'toGeopandas', [('self', 'Coll'), ('include_properties', 'Incl')], nt='true',
+            doc='what reaches `pd.DataFrame` / `GeoSeries.from_wkt`')
+    tg.reader, tg.ret_kind = True, 'FrameW'
+    fns.append(tg)
     pins = {
         'time.py::TimeInterval.__init__': PIN_TI,        # `V.mkTI`
         '_base.py::BaseShape.__init__': PIN_BASE,        # `dtOfArg`
+        '_base.py::BaseShapeProtocol.properties': PIN_PROPS,   # the model's `Shape.properties`
     }
     return IoUnit(path, fns, pins, os.path.dirname(path))
 
 
 PIN_TI = '6f42465261678d41'
 PIN_BASE = '9f9f957bce376782'
+PIN_PROPS = 'c3680611154b60f9'
